@@ -70,6 +70,15 @@ pub(crate) mod verif_probe {
                     }
                 }
             }
+            "read_message" => {
+                let data = unhex(v["hex"].as_str().unwrap());
+                let rt = tokio::runtime::Builder::new_current_thread().enable_all().build().unwrap();
+                let mut cur = std::io::Cursor::new(data);
+                match rt.block_on(read_message(&mut cur)) {
+                    Ok(b) => Some(json!({"ok": hex(&b), "pos": cur.position()})),
+                    Err(e) => Some(json!({"err": format!("{:?}", e), "pos": cur.position()})),
+                }
+            }
             "parse_hash" => {
                 // two Parse values built through the real decoder from their wire encodings
                 let a = Parse::try_from(&BytesMut::from(&unhex(v["a"].as_str().unwrap())[..])).unwrap();
